@@ -28,6 +28,8 @@
     All three are exercised on every run by the correspondence check. *)
 From Coq Require Import List NArith ZArith Bool.
 From ApiFu Require Import Base.Sexp Transport.EnvelopeModel Transport.EnvelopeSpec Transport.EnvelopeProofs.
+From ApiFu Require Import Transport.JsonText Transport.JsonTextProofs Transport.EnvelopeCompose.
+From ApiFu Require Api.PersistedQueryModel.
 Import ListNotations.
 
 Section C17.
@@ -37,7 +39,7 @@ Section C17.
   Variable clean : json -> Prop.
   Hypothesis std_faithful : forall j, clean j -> parse_std (render j) = PTree j.
   Hypothesis jsi_faithful : forall j, clean j -> parse_jsi (render j) = PTree j.
-  Hypothesis render_nonempty : forall j, is_empty (render j) = false.
+  Hypothesis render_nonempty : forall j, clean j -> is_empty (render j) = false.
 
   (** ** envelope_roundtrip_t: decoding is a left inverse of the canonical encoding *)
 
@@ -98,7 +100,8 @@ Section C17.
       numbers in members that are not read) *)
   Theorem C17_post_body_and_ws_payload_agree : forall text kvs p id o x,
     parse_std text = PTree (JObj kvs) -> parse_jsi text = PTree (JObj kvs) ->
-    has_range (JObj kvs) = false -> single_string_members kvs = true ->
+    fold_members StdJson kvs = fold_members Jsoniter kvs ->      (* no member name containing U+017F, U+0130 *)
+    has_range (JObj kvs) = false -> single_string_members (fold_members StdJson kvs) = true ->
     decode fixed parse_std parse_jsi (WHttp {| e_method := m_post; e_media := mt_json; e_url := []; e_body := text |}) = Some (o, x) ->
     decode fixed parse_std parse_jsi (WWs p {| f_type := start_type p; f_id := id; f_payload := Some text |}) = Some (o, None).
   Proof. exact (post_body_and_ws_payload_agree parse_std parse_jsi). Qed.
@@ -193,6 +196,90 @@ Section C17.
   Qed.
 End C17.
 
+(** ** stage B: the JSON text layer inside the model.
+    [parse_text fl numval] (Transport/JsonText.v) is a Gallina reader for the bytes of a body, URL
+    parameter or payload as encoding/json ([StdJson]) resp. jsoniter ([Jsoniter]) reads them — the
+    correspondence check runs it on the raw bytes of every envelope; [print numprint] is the canonical
+    client serialiser.  What remains trusted of the text layer is the conversion of number tokens:
+    [numprint] (the client's formatting of a float64) and [numval] (strconv.ParseFloat), tied by the
+    four hypotheses below.  [tclean fl numclean j]: the numbers of [j] are [numclean], and (for
+    encoding/json, which rewrites invalid UTF-8) its strings and member names are ASCII.
+    PARTIAL: strings beyond ASCII on the HTTP transports are covered by the tree-level theorems above
+    (hypothesis [std_faithful]) but not yet by the byte-level ones. *)
+Section C17Bytes.
+  Variable numval : bytes -> option N.
+  Variable numprint : N -> bytes.
+  Variable numclean : N -> Prop.
+  Hypothesis num_nonempty : forall b, numclean b -> numprint b <> [].
+  Hypothesis num_chars : forall b, numclean b -> forallb num_char (numprint b) = true.
+  Hypothesis num_grammar : forall b, numclean b -> num_ok (numprint b) = true.
+  Hypothesis num_back : forall b, numclean b -> numval (numprint b) = Some b.
+
+  (** the reader is a left inverse of the serialiser: every value, any nesting depth, both flavours *)
+  Theorem C17_json_text_roundtrip : forall fl j,
+    tclean fl numclean j -> parse_text fl numval (print numprint j) = PTree j.
+  Proof. exact (fun fl => parse_print fl numval numprint numclean num_nonempty num_chars num_grammar num_back). Qed.
+
+  (** envelope_roundtrip over bytes, all six shapes: the operation is read back from the bytes of its
+      canonical envelope *)
+  Theorem C17_envelope_roundtrip_bytes : forall t id o,
+    wf_op o = true -> carries t o = true -> (forall j, In j (sent_json t o) -> text_clean numclean j) ->
+    decode fixed (parse_text StdJson numval) (parse_text Jsoniter numval) (encode (print numprint) t id o) = Some (o, None).
+  Proof.
+    exact (C17_envelope_roundtrip (print numprint) (parse_text StdJson numval) (parse_text Jsoniter numval) (text_clean numclean)
+             (std_faithful_bytes numval numprint numclean num_nonempty num_chars num_grammar num_back)
+             (jsi_faithful_bytes numval numprint numclean num_nonempty num_chars num_grammar num_back)
+             (render_nonempty_bytes_clean numprint numclean num_nonempty num_chars)).
+  Qed.
+
+  (** transport_same_response over bytes, composed with C18: the persisted-query wrapper is C18's
+      model ([pq_of]: [PersistedQueryModel.step] on a storage in any state [st]); its two properties
+      used here follow from C18's theorem ([disabled_equiv]) and are no longer hypotheses *)
+  Theorem C17_transport_same_response_bytes :
+    forall (Schema Features Ctx Doc Resp : Type) (no_features : Features)
+           (parse_validate : Schema -> Features -> Z * Z -> bytes -> bytes -> option gomap -> pv_result Doc Resp)
+           (is_subscription : Doc -> bytes -> bool)
+           (execute : bool -> Schema -> exec_request Features Doc -> Z -> Resp)
+           (run_subscription : bool -> Schema -> exec_request Features Doc -> Z -> list Resp)
+           (marshal : Resp -> option bytes)
+           (sha : bytes -> bytes) (not_found : Resp) (st : PersistedQueryModel.storage),
+    let pq := pq_of Resp (event Features Ctx Doc) sha not_found st in
+    let resp := respond no_features parse_validate is_subscription execute run_subscription pq marshal fixed
+                        (parse_text StdJson numval) (parse_text Jsoniter numval) (print numprint) in
+    forall t1 t2 (a : api Schema Features Ctx) c id1 id2 o,
+    wf_op o = true -> carries t1 o = true -> carries t2 o = true ->
+    (forall j, In j (sent_json t1 o) \/ In j (sent_json t2 o) -> text_clean numclean j) ->
+    (forall d cost, parse_validate (a_schema a) (features_of no_features a c) (a_default_cost a) (o_query o) (o_opname o) (o_vars o) = PVOk d cost ->
+                    is_subscription d (o_opname o) = false) ->
+    (forall r tr, validate_execute parse_validate execute a (features_of no_features a c) (request_of o) = (r, tr) -> marshal r <> None) ->
+    resp t1 a c id1 o = resp t2 a c id2 o /\ exists body, fst (resp t1 a c id1 o) = Some [body].
+  Proof.
+    exact (fun Schema Features Ctx Doc Resp no_features parse_validate is_subscription execute run_subscription marshal sha not_found st =>
+             C17_transport_same_response (print numprint) (parse_text StdJson numval) (parse_text Jsoniter numval) (text_clean numclean)
+               (std_faithful_bytes numval numprint numclean num_nonempty num_chars num_grammar num_back)
+               (jsi_faithful_bytes numval numprint numclean num_nonempty num_chars num_grammar num_back)
+               (render_nonempty_bytes_clean numprint numclean num_nonempty num_chars)
+               Schema Features Ctx Doc Resp no_features parse_validate is_subscription execute run_subscription
+               (pq_of Resp (event Features Ctx Doc) sha not_found st) marshal
+               (pq_of_no_ext Resp (event Features Ctx Doc) sha not_found st)).
+  Qed.
+End C17Bytes.
+
+(** the same bytes, read as different operations by the two libraries (observations on the real
+    code, see checks/C17.design.md): a member named "variable" + U+017F is [variables] for encoding/json
+    only; a lone surrogate escape followed by an escaped pair loses the pair on the sockets *)
+Theorem C17_same_text_other_operation :
+  (exists text o1 o2 x id, 
+     decode fixed (parse_text StdJson (fun _ => None)) (parse_text Jsoniter (fun _ => None))
+            (WHttp {| e_method := m_post; e_media := mt_json; e_url := []; e_body := text |}) = Some (o1, x) /\
+     decode fixed (parse_text StdJson (fun _ => None)) (parse_text Jsoniter (fun _ => None))
+            (WWs GraphqlWS {| f_type := t_start; f_id := id; f_payload := Some text |}) = Some (o2, None) /\
+     o_vars o1 <> o_vars o2) /\
+  (exists text s1 s2,
+     parse_text StdJson (fun _ => None) text = PTree (JStr s1) /\
+     parse_text Jsoniter (fun _ => None) text = PTree (JStr s2) /\ s1 <> s2).
+Proof. exact same_text_other_operation. Qed.
+
 (** ** the two repaired defects, kept as witnesses against the pinned code *)
 
 (** defect 24: POST application/json with the query in the URL and body {} lost the operation *)
@@ -227,5 +314,9 @@ Print Assumptions C17_transport_features.
 Print Assumptions C17_envelope_malformed_4xx_no_exec.
 Print Assumptions C17_envelope_malformed_ws_no_exec.
 Print Assumptions C17_clone_same_response.
+Print Assumptions C17_json_text_roundtrip.
+Print Assumptions C17_envelope_roundtrip_bytes.
+Print Assumptions C17_transport_same_response_bytes.
+Print Assumptions C17_same_text_other_operation.
 Print Assumptions C17_post_url_query_refuted_before_fix.
 Print Assumptions C17_trailing_bytes_refuted_before_fix.
